@@ -1120,6 +1120,20 @@ def rule_V7(ctx, rule: str = "V7") -> None:
         verdicts = set()
         for p in res:
             v = p.value
+            if v is not None:
+                # getattr(x, "_serialized_on_wire", D): the flag of a message; D for a container, which has no such attribute
+                def _flag(t):
+                    if isinstance(t, tuple) and t and t[0] == "call" and t[1] == N("getattr") and len(t[2]) == 3 and t[2][1] == C("_serialized_on_wire") and not t[3]:
+                        return A(t[2][0], "_serialized_on_wire") if kind == "Message" else t[2][2]
+                    if isinstance(t, tuple) and t and t[0] == "op":
+                        return simplify(("op", t[1]) + tuple(_flag(x) for x in t[2:]))
+                    return t
+                v = _flag(v)
+                if v[0] == "op" and v[1] == "or" and any(x[0] == "c" and x[1] for x in v[2:]):
+                    v = C(True)
+                elif v[0] == "op" and v[1] == "or":
+                    rest = tuple(x for x in v[2:] if not (x[0] == "c" and not x[1]))
+                    v = rest[0] if len(rest) == 1 else ("op", "or") + rest if rest else C(False)
             if v == C(False):
                 verdicts.add("F")
             elif v == C(True):
